@@ -183,9 +183,9 @@ func genCase(r *vh.Rand) string {
 }
 
 func gen(r *vh.Rand, tier string) []string {
-	n := 260
+	n := 600
 	if tier == "thorough" {
-		n = 6000
+		n = 12000
 	}
 	out := make([]string, 0, n)
 	for i := 0; i < n; i++ {
